@@ -7,7 +7,6 @@ use std::sync::atomic::{AtomicUsize, Ordering};
 pub struct Counting;
 
 static MAX_REQUEST: AtomicUsize = AtomicUsize::new(0);
-static TOTAL_REQUESTS: AtomicUsize = AtomicUsize::new(0);
 
 unsafe impl GlobalAlloc for Counting {
     unsafe fn alloc(&self, l: Layout) -> *mut u8 {
@@ -29,7 +28,6 @@ unsafe impl GlobalAlloc for Counting {
 
 #[inline]
 fn note(size: usize) {
-    TOTAL_REQUESTS.fetch_add(1, Ordering::Relaxed);
     if size > MAX_REQUEST.load(Ordering::Relaxed) {
         MAX_REQUEST.store(size, Ordering::Relaxed);
     }
@@ -41,8 +39,4 @@ pub fn reset_max() {
 
 pub fn max_request() -> usize {
     MAX_REQUEST.load(Ordering::Relaxed)
-}
-
-pub fn total_requests() -> usize {
-    TOTAL_REQUESTS.load(Ordering::Relaxed)
 }
